@@ -317,7 +317,7 @@ class Ctx:
         return {"bad": bad, "stats": stats, "events": events}, {"generated": gen, "distinct": dist, "parts": len(files)}
 
 
-def binding_selftest(ctx, module, cfg, trace_path, corruptors, max_cases=400):
+def binding_selftest(ctx, module, cfg, trace_path, corruptors, max_cases=400, allow_rejected=False):
     """Demonstrates that the trace specification is bound to what was recorded: for each corruptor a copy of one
     accepted case of the trace with one recorded field altered must be rejected.  corruptors: list of
     (name, fn(events) -> altered events or None if the case offers nothing to alter).  Returns
@@ -351,11 +351,11 @@ def binding_selftest(ctx, module, cfg, trace_path, corruptors, max_cases=400):
                         e["case"] = 0
                         g.write(json.dumps(e) + "\n")
                 v, _ = ctx.validate(module, cfg, fp, parts=1)
-                res.append(len(v["bad"]))
-            if res[0] != 0:
+                res.append(sum(max(1, len(b.get("items", []))) for b in v["bad"]))
+            if res[0] != 0 and not allow_rejected:
                 continue      # this case is itself rejected (a known finding): take another one
-            if res[1] == 0:
-                raise Infra("binding self-test %s: %s accepts a trace in which a recorded field was altered" % (name, module))
+            if res[1] <= res[0]:
+                raise Infra("binding self-test %s: %s does not object to a trace in which a recorded field was altered" % (name, module))
             out[name] = "rejected"
             done = True
             break
